@@ -988,3 +988,38 @@ Print Assumptions step_ledger.
 Print Assumptions clone_ledger.
 Print Assumptions clone_from_ledger.
 Print Assumptions run_ledger_conserves.
+
+(* dropping a world drops exactly what it owns, each value once, and clones nothing *)
+Lemma dropped_flat_arch_drops l : dropped (flat_map arch_drops l) = flat_map arch_items l.
+Proof.
+  induction l as [|a t IH]; [reflexivity|]. cbn [flat_map].
+  rewrite dropped_app, dropped_arch_drops, IH. reflexivity.
+Qed.
+
+Lemma cloned_flat_arch_drops l : cloned (flat_map arch_drops l) = [].
+Proof.
+  induction l as [|a t IH]; [reflexivity|]. cbn [flat_map].
+  rewrite cloned_app, cloned_arch_drops, IH. reflexivity.
+Qed.
+
+Theorem drop_world_ledger : forall w, dropped (drop_world w) = owned w /\ cloned (drop_world w) = [].
+Proof.
+  intros w. unfold drop_world, owned.
+  rewrite dropped_app, cloned_app, dropped_flat_arch_drops, cloned_flat_arch_drops,
+    dropped_res_drops, cloned_res_drops. split; reflexivity.
+Qed.
+
+(* a whole life: a history from a new world, then the world is dropped:
+   everything ever moved in (resources at creation, components by the operations)
+   is dropped exactly once (as multisets: same values, same multiplicities) *)
+Theorem life_ledger : forall n res ops w ins drs,
+  run_ledger (empty_world n res) ops = Some (w, ins, drs) ->
+  Permutation (res_items res ++ ins) (drs ++ dropped (drop_world w)).
+Proof.
+  intros n res ops w ins drs H.
+  pose proof (run_ledger_conserves ops (empty_world n res) w ins drs (empty_world_inv n res) H) as P.
+  destruct (drop_world_ledger w) as [D _]. rewrite D.
+  unfold owned at 1 in P. cbn [empty_world w_archs w_res flat_map app] in P.
+  eapply Permutation_trans; [exact P|]. apply Permutation_app_comm.
+Qed.
+Print Assumptions life_ledger.
